@@ -185,9 +185,11 @@ CHECKS = {
         "idle_overlay": True,
         "rule": ("rapid state machine over Server.servePacket on an in-memory PacketConn (arrival order = generated order): datagrams from 1-4 client addresses of 1..9000 bytes "
                  "tagged with client and sequence number, bursts of 6-40 (more than the channel capacities), slow consumers, handlers that finish (at once or after 1-30 ms) "
-                 "with 0-12 datagrams racing with the end of the association, floods of datagrams that match no route, pauses, idle expiry (timeout shortened to 150 ms through "
+                 "with 0-12 datagrams racing with the end of the association, floods of datagrams that match no route, a stampede (8-14 other associations end while the loop is "
+                 "handing a burst to a client whose handler does not read), pauses, idle expiry (timeout shortened to 150 ms through "
                  "a generated overlay of layer4/server.go); then every client keeps sending until it is served again, and the socket is closed. Oracle: invariants over the "
-                 "recorded deliveries/replies/associations and no panic or wedge of the loop. Non-trivial = >= 2 clients and an association that ended followed by more "
+                 "recorded deliveries/replies/associations (a client whose association never ended gets every datagram; suspected losses are reproduced on fresh servers "
+                 "before they count) and no panic or wedge of the loop. Non-trivial = >= 2 clients and an association that ended followed by more "
                  "datagrams, or > 30 deliveries; distinct = distinct history."),
         "assumptions": ["handlers always drain their association (bounded sleeps), so a wedged loop cannot be blamed on them",
                         "datagrams that are still queued when an association ends may be dropped (UDP); loss is not a violation, cross-delivery, duplication and reordering are",
@@ -242,9 +244,10 @@ CHECKS = {
                  "half-close), at once and then half-close while they keep reading, or duplex; the client sends first or only after it has seen the upstreams' EOF; a matcher "
                  "prefetches 0-6000 bytes first; faults: client or one peer resets (SO_LINGER 0) at a generated offset. Peers use disjoint byte alphabets so that the "
                  "interleaving at the client can be split. Oracle: exact streams and EOF in both directions, handler returns, upstream connections closed, fd count restored; "
-                 "fault cases: prefixes only, handler returns. Non-trivial = both directions non-empty with data sent after the other side's EOF, or >= 2 peers, or prefetched bytes."),
+                 "fault cases: prefixes only, handler returns. Plus a datagram upstream (udp/): request out, 1-4 reply datagrams of 1 B..32 KiB back whole and in order; and an upstream "
+                 "whose second peer refuses at first with retries configured: every connection opened to the first peer, also by the attempts given up, is closed when the handler has returned. Non-trivial = both directions non-empty with data sent after the other side's EOF, or >= 2 peers, or prefetched bytes."),
         "assumptions": ["interleavings of the relay goroutines are sampled", "downstreams without half-close (behind proxy_protocol/throttle, UDP) are outside the 'wherever the transport offers' clause"],
-        "min_classes": {"quick": {"C03/tls": 40, "C03/unix": 40, "C03/fault": 20, "C03/half-close-with-data-after-eof": 60, "C03/peers/3": 20, "C03/prefetched": 40, "C03/upstream-tls": 40, "C03/tls12-close-with-last-record": 8}},
+        "min_classes": {"quick": {"C03/tls": 40, "C03/unix": 40, "C03/fault": 20, "C03/half-close-with-data-after-eof": 60, "C03/peers/3": 20, "C03/prefetched": 40, "C03/upstream-tls": 40, "C03/tls12-close-with-last-record": 8, "C03/udp-upstream": 200, "C03/retried-attempts": 200}},
         "runs": [
             {"name": "relay", "pkg": "./c03", "run": ".", "rapid_checks": {"quick": 100, "thorough": 5000},
              "shards": {"quick": 4, "thorough": 16}, "timeout": {"quick": 600, "thorough": 7200}},
